@@ -1,17 +1,17 @@
 SPECIFICATION ISpec
 CONSTANTS
-  P = 2
-  C = 2
+  P = 1
+  C = 1
   L = 0
-  MaxProd = 3
+  MaxProd = 1
   NB = 0
   MaxTog = 0
   MaxFail = 0
-  Variant = "ok"
+  Variant = "nowaitp"
   Mode = "free"
   SeqCalls = FALSE
   Emit = FALSE
   MinCmd = 0
-INVARIANTS Refines DeadEndsAreComplete QTypeOK ActiveOK OneConsumer Returned CounterAgrees
+INVARIANTS Refines
 VIEW View
 CHECK_DEADLOCK FALSE
